@@ -31,6 +31,7 @@ ASSUMPTIONS = [
 ]
 MIN_NONTRIVIAL_FRACTION = 0.15
 RULE += " Added after the seeded rounds: " + 'Also generated: values of the wrong JSON type for their field (bool for str, number for bool, ...; an enumerated single-field table as well), compact separators, numeric strings with thousands separators, and earlier folds (valid and invalid) on the same validator.'
+RULE += " Histories may read or reset the validator's statistics between folds (get_statistics / reset_statistics; an enumerated table over 2 schemas x 6 wrappers x 6 strategy orders x 2 call lists): fold and fold_enhanced must keep agreeing."
 
 TYPES = ["int", "float", "str", "bool", "list_int", "list_str", "opt_int", "opt_str", "nested"]
 STRS = ["plain", "None of the above", "True story", "it's", 'a "quoted" word', "{brace}", "[1,2]", "x,}", "key: 'v'", "```", "NaN", "undefined", "",
@@ -92,7 +93,8 @@ def _case(draw):
     if draw(st.integers(0, 3)) == 0:
         other = {nm: draw(_value(t)) for nm, t in fields}
         pre = [tj.write(other, {}), tj.write(inst, {"kq": "", "tc": True}), "```json\n" + tj.write(other, {}) + "\n```", "{ not json at all", ""][:draw(st.integers(1, 5))]
-    return {"fields": fields, "inst": inst, "sem": sem, "style": style, "wrap": wrap, "trunc": trunc, "order": draw(_order()), "raw": None, "pre": pre}
+    return {"fields": fields, "inst": inst, "sem": sem, "style": style, "wrap": wrap, "trunc": trunc, "order": draw(_order()), "raw": None, "pre": pre,
+            "maint": draw(st.sampled_from([None, None, None, ["reset_statistics"], ["get_statistics"], ["get_statistics", "reset_statistics", "get_statistics"]]))}
 
 
 def _order():
@@ -113,6 +115,17 @@ def enumerate_cases(tier):
         for v in values:
             for order in (None, [2], [0, 2], [3, 2, 1, 0]):
                 yield {"fields": [["f", t]], "inst": {"f": 0}, "sem": [["mistype", "f", v]], "style": {}, "wrap": [], "trunc": None, "order": order, "raw": None}
+    for case in _maint_table():
+        yield case
+
+
+def _maint_table():
+    """wrapper x strategy order x bookkeeping call, for one flat and one nested schema: fold and fold_enhanced must agree whatever was read or reset before"""
+    for fields, inst in (([["name", "str"], ["n", "int"]], {"name": "Ada", "n": 3}), ([["name", "str"], ["inner", "nested"]], {"name": "Ada", "inner": {"x": 1}})):
+        for wrap in ([], ["fence_json"], ["prose_pre"], ["prose_pre", "decoy_second"], ["xml"], ["fence"]):
+            for order in (None, [0, 1], [1], [1, 3], [2], [3]):
+                for maint in (["reset_statistics"], ["get_statistics", "reset_statistics"]):
+                    yield {"fields": fields, "inst": inst, "sem": [], "style": {}, "wrap": wrap, "trunc": None, "order": order, "raw": None, "pre": None, "maint": maint}
 
 
 def selftest():
@@ -273,6 +286,10 @@ def judge(case):
             chap.fold(other, schema)
             chap2.fold_enhanced(other, schema)
             chap2.fold_enhanced(other, _model([["name", "str"]]))
+        for call in case.get("maint") or []:
+            # bookkeeping calls between folds (statistics read / reset): folding must not depend on them
+            for c_ in (chap, chap2):
+                getattr(c_, call)()
         r1 = chap.fold(raw, schema)
         r2 = chap2.fold_enhanced(raw, schema)
     except Exception as e:
